@@ -207,9 +207,14 @@ def o9(tier):
         ob.eng.model_maps = False
         total = 0
         done = []
-        for name in UNIFFI_FNS:
+        # the record conversions towards the host (stored message / group / welcome -> binding record): hostile peers control parts of those records (tags, names)
+        conv = [f for f in ob.prog.crates['mdk-uniffi'].funcs.values() if f.name.endswith('::from') and f.params
+                and any(k in f.params[0][1] for k in ('group_types::Group', 'message_types::Message', 'welcome_types::Welcome'))]
+        ob.require(len(conv) >= 3, 'O9/conversions-not-found', f'record conversions found in mdk-uniffi: {len(conv)}')
+        for name in UNIFFI_FNS + conv:
             try:
-                f = ob.fn('mdk-uniffi', name)
+                f = name if not isinstance(name, str) else ob.fn('mdk-uniffi', name)
+                name = name if isinstance(name, str) else 'From<' + f.params[0][1].split('::')[-1] + '>'
             except Exception as e:
                 ob.require(False, f'O9/{name}/not-found', f'binding function {name} not found in the MIR: {e}')
                 continue
@@ -228,6 +233,15 @@ def o9(tier):
     return ob.done(cases=total)
 
 
+def o11(tier):
+    """a message that is going to be refused (author mismatch) is refused before anything is written"""
+    from props import C02
+    r = C02.o2(tier)
+    r.oid = 'O11'
+    r.title = 'process_application_message (shared with C02-O2): the author check precedes the first write, so a rumor refused for its author leaves no stored message (and cannot overwrite one) -- ' + r.title[:140]
+    return r
+
+
 def o10(tier):
     """a failed storage operation must not leave half of its effects visible: the error path of the SQLite rollback rolls its transaction back"""
     from props import C12
@@ -237,7 +251,7 @@ def o10(tier):
     return r
 
 def run(tier, seed, only=None):
-    obs = [('O1', o1), ('O1b', o1b), ('O2', o2), ('O3', o3), ('O4', o4), ('O5', o5), ('O6', o6), ('O7', o7), ('O8', o8), ('O9', o9), ('O10', o10)]
+    obs = [('O1', o1), ('O1b', o1b), ('O2', o2), ('O3', o3), ('O4', o4), ('O5', o5), ('O6', o6), ('O7', o7), ('O8', o8), ('O9', o9), ('O10', o10), ('O11', o11)]
     out = []
     for k, f in obs:
         if only and k not in only:
